@@ -17,6 +17,7 @@ package internal
 import (
 	"encoding/json"
 	"fmt"
+	"strconv"
 	"sync"
 	"time"
 )
@@ -97,6 +98,11 @@ func encodeScalar(value interface{}) (string, []byte, error) {
 		b, err := json.Marshal(BytesString(str))
 		return typ, b, err
 	}
+	if f, ok := value.(float64); ok {
+		// Written as a string, because JSON numbers cannot express -Inf, +Inf and NaN.
+		b, err := json.Marshal(strconv.FormatFloat(f, 'g', -1, 64))
+		return typ, b, err
+	}
 	b, err := json.Marshal(value)
 	return typ, b, err
 }
@@ -118,9 +124,11 @@ func decodeScalar(typ string, data []byte) (interface{}, error) {
 		err := json.Unmarshal(data, &v)
 		return v, err
 	case "float":
-		var v float64
-		err := json.Unmarshal(data, &v)
-		return v, err
+		var v string
+		if err := json.Unmarshal(data, &v); err != nil {
+			return nil, err
+		}
+		return strconv.ParseFloat(v, 64)
 	}
 	return nil, fmt.Errorf("unknown scalar type %s", typ)
 }
